@@ -29,7 +29,7 @@ ASSUMPTIONS = ["as C01", "uniqueness is used: any solver of the same three defin
 REQUIRED_CLASSES = {"all": ["blocks=3", "params=2", "repr=sympy", "repr=sparse", "selection=mask", "selection=full"]}
 
 
-FORMS = ("indices", "indices", "indices", "blocks", "blocks", "eigvecs")
+FORMS = ("indices", "indices", "indices", "blocks", "blocks", "eigvecs", "symmatrix")
 
 
 def strategy(tier):
